@@ -161,7 +161,8 @@ From PyFatV Require Import Proofs.BootSafe Proofs.Inside.
 Theorem C16_history_frame : forall s s', pre s -> clos_refl_trans st wstep s s' ->
   s_h s' = s_h s /\ s_p s' = s_p s /\ s_hi s' = s_hi s /\ lenZ (s_fat s') = lenZ (s_fat s) /\
   forall i, 0 <= i -> nthZ (s_fat s') i <> nthZ (s_fat s) i ->
-    2 <= i <= max_cluster s /\ (nthZ (s_fat s) i = 0 \/ used_val (ft s) (dmax s) (nthZ (s_fat s) i) = true).
+    2 <= i <= max_cluster s /\ (nthZ (s_fat s) i = 0 \/ used_val (ft s) (dmax s) (nthZ (s_fat s) i) = true) /\
+    0 <= nthZ (s_fat s') i <= Gen.END_OF_CLUSTER_MAX (ft s).
 Proof.
   intros s s' Hp H. destruct (history_J s s' Hp H) as (A1 & A2 & A3 & _ & _ & [L C] & _).
   split; [exact A1|]. split; [exact A2|]. split; [exact A3|]. split; [exact L|exact C].
